@@ -386,6 +386,8 @@ type env struct {
 	rng   *rand.Rand
 	n     int
 	reps  int // multiplier for random repetitions
+	item  int // index of the (key, shape) item: rotates the hash subsets of the quick tier
+	full  bool
 }
 
 func (e *env) reader() io.Reader {
@@ -726,7 +728,7 @@ func oaepEncode(lh, mgf crypto.Hash, k int, msg, label, seed []byte) []byte {
 func (e *env) suiteOAEP() {
 	k := e.k.size()
 	std := e.k.std
-	for _, h := range oaepHashes {
+	for ohi, h := range oaepHashes {
 		hl := h.Size()
 		maxLen := k - 2*hl - 2
 		if maxLen < 0 {
@@ -821,7 +823,10 @@ func (e *env) suiteOAEP() {
 				e.viol("agree:EncryptOAEP:message-too-long", fmt.Sprintf("zcrypto err=%s std err=%s", errStr(zerr), errStr(serr)), "EncryptOAEP", "hash", hashName(h), "msg", msg)
 			}
 		}
-		// mutations
+		// mutations (quick tier: one hash per (key, shape), rotating)
+		if !e.full && ohi != e.item%len(oaepHashes) {
+			continue
+		}
 		m2 := randBytes(e.rng, e.rng.IntN(maxLen+1))
 		if cs, serr := stdrsa.EncryptOAEP(h.New(), e.reader(), &std.PublicKey, m2, nil); serr == nil {
 			e.decryptMutations("DecryptOAEP", cs,
@@ -1004,7 +1009,14 @@ func (e *env) suitePSS() {
 	_ = k
 	std := e.k.std
 	emLen := (e.k.N.BitLen() - 1 + 7) / 8
-	for hi, h := range pssHashes {
+	hashes := pssHashes
+	if !e.full { // quick tier: three of the six hashes per (key, shape), rotating with the item index
+		hashes = nil
+		for j := 0; j < 3; j++ {
+			hashes = append(hashes, pssHashes[(e.item+2*j)%len(pssHashes)])
+		}
+	}
+	for hi, h := range hashes {
 		hl := h.Size()
 		maxSalt := emLen - hl - 2
 		digest := randBytes(e.rng, hl)
@@ -1603,7 +1615,7 @@ func runC23(c *core.Ctx) {
 		}
 		k := all[it.key]
 		e := &env{c: c, k: k, zk: zKey(k, it.shape), shape: shapeNames[it.shape],
-			rng: c.SubRng(fmt.Sprintf("item-%d-%d", it.key, it.shape)), reps: c.Pick(1, 6)}
+			rng: c.SubRng(fmt.Sprintf("item-%d-%d", it.key, it.shape)), reps: c.Pick(1, 6), item: idx, full: c.Thorough()}
 		if k.heavy && !c.Thorough() {
 			e.reps = 1
 		}
